@@ -12,7 +12,7 @@ MC_Shapes == {<<4,3>>}
 MC_IdSets == {{1,2,3,4}, {2,5,7,10}}
 MC_MaxExtra == 1
 MC_SeedChoices == {9}
-MC_Faults == {"none","seed","comm","share","few"}
+MC_Faults == {"none","seed","comm","share","share2","few"}
 MC_SeedFaults == {"last","trunc"}
 MC_FixedAlphas == {1}
 MC_KeyChoices == {7}
